@@ -144,6 +144,30 @@ impl SExp {
         }
     }
 
+    /// every numeric literal of the expression
+    pub fn consts(&self, out: &mut Vec<f64>) {
+        match self {
+            SExp::Num(v) => out.push(*v),
+            SExp::Var(_) => {}
+            SExp::Neg(e) | SExp::Abs(e) | SExp::Not(e) => e.consts(out),
+            SExp::Add(a, b)
+            | SExp::Sub(a, b)
+            | SExp::Mul(a, b)
+            | SExp::Div(a, b)
+            | SExp::Xor(a, b)
+            | SExp::Implies(a, b)
+            | SExp::Iff(a, b) => {
+                a.consts(out);
+                b.consts(out);
+            }
+            SExp::Min(es) | SExp::Max(es) | SExp::And(es) | SExp::Or(es) => {
+                for e in es {
+                    e.consts(out)
+                }
+            }
+        }
+    }
+
     pub fn size(&self) -> usize {
         match self {
             SExp::Num(_) | SExp::Var(_) => 1,
